@@ -1786,7 +1786,12 @@ def guess_primitive_matrix(unitcell: PhonopyAtoms, symprec: float = 1e-5):
     tmat = dataset.transformation_matrix
     centring = dataset.international[0]
     pmat = get_primitive_matrix_by_centring(centring)
-    return np.array(np.dot(np.linalg.inv(tmat), pmat), dtype="double", order="C")
+    guessed_pmat = np.dot(np.linalg.inv(tmat), pmat)
+    if np.linalg.det(guessed_pmat) < 0:
+        # Left-handed unit cell: the inverted basis vectors span the same
+        # primitive lattice and keep the determinant positive.
+        guessed_pmat = -guessed_pmat
+    return np.array(guessed_pmat, dtype="double", order="C")
 
 
 def shape_supercell_matrix(smat: Optional[Union[Sequence, np.ndarray]]) -> np.ndarray:
